@@ -28,6 +28,54 @@ type txWorld struct {
 	shaped  bool // every query of this script uses the shape-dependent statement
 	pos     int
 	viol    func(prop, name, detail string)
+	// later: once the transaction is finished another one is begun on the same DB and stays open
+	// until the end of the script; nothing done through the finished handle may touch it
+	later bool
+	tx2   *sqlair.TX
+	conn2 int
+}
+
+// beginLater begins the second transaction (after the first has been finished).
+func (w *txWorld) beginLater() {
+	if !w.later || w.tx2 != nil {
+		return
+	}
+	tx2, err := w.db.Begin(context.WithValue(context.Background(), markerKey, 998), nil)
+	if err != nil {
+		w.viol("C12", "begin-after-a-finished-transaction-failed", err.Error())
+		return
+	}
+	w.tx2 = tx2
+	evs := w.f.log()
+	for _, ev := range evs[w.pos:] {
+		if ev.Kind == "begin" {
+			w.conn2 = ev.Conn
+		}
+	}
+	w.pos = len(evs)
+}
+
+// endLater: the later transaction is still open and its own: a statement runs on its connection and
+// Commit succeeds and reaches the driver.
+func (w *txWorld) endLater() {
+	if w.tx2 == nil {
+		return
+	}
+	w.pos = len(w.f.log())
+	err := w.tx2.Query(context.Background(), txStmts[0], Person{ID: 77, Name: "later"}).Run()
+	cerr := w.tx2.Commit()
+	var seq []string
+	for _, ev := range w.f.log()[w.pos:] {
+		switch ev.Kind {
+		case "exec", "query", "commit", "rollback":
+			seq = append(seq, fmt.Sprintf("%s@%d", ev.Kind, ev.Conn))
+		}
+	}
+	want := fmt.Sprintf("exec@%d commit@%d", w.conn2, w.conn2)
+	if err != nil || cerr != nil || strings.Join(seq, " ") != want {
+		w.viol("C12", "later-transaction-disturbed-through-a-finished-handle", fmt.Sprintf("run: %v, commit: %v, driver saw [%s], want [%s]", err, cerr, strings.Join(seq, " "), want))
+	}
+	w.pos = len(w.f.log())
 }
 
 var txStmts = []*sqlair.Statement{
@@ -188,10 +236,14 @@ func (w *txWorld) exec(op string, r *rng) string {
 		return strings.Join(append(evs, txErrClass(err)), ".")
 	case op == "commit":
 		err := w.tx.Commit()
-		return strings.Join(append(w.events(0), txErrClass(err)), ".")
+		res := strings.Join(append(w.events(0), txErrClass(err)), ".")
+		w.beginLater()
+		return res
 	case op == "rollback":
 		err := w.tx.Rollback()
-		return strings.Join(append(w.events(0), txErrClass(err)), ".")
+		res := strings.Join(append(w.events(0), txErrClass(err)), ".")
+		w.beginLater()
+		return res
 	}
 	return "?"
 }
@@ -312,6 +364,7 @@ func txRace(r *rng, add func(violation)) {
 }
 
 type txStats struct {
+	Later int `json:"scripts_with_a_later_transaction_open_after_the_finish"`
 	Cases      int            `json:"cases"`
 	Ops        map[string]int `json:"op_kinds"`
 	Distinct   int            `json:"distinct_cases"`
@@ -353,11 +406,16 @@ func cmdTx(args []string) int {
 		caseStart.Store(time.Now().UnixNano())
 		w := newTxWorld(r, func(prop, name, detail string) { addViol(violation{prop, name, hx(req), detail}) })
 		w.shaped = i%4 == 3
+		w.later = i%3 == 1
 		var outs []string
 		for _, op := range ops {
 			outs = append(outs, w.exec(op, r))
 			st.Ops[strings.Fields(strings.Trim(op, "()"))[0]]++
 		}
+		if w.tx2 != nil {
+			st.Later++
+		}
+		w.endLater()
 		w.db.PlainDB().Close()
 		dropFakeDB(w.f.name)
 		caseStart.Store(0)
